@@ -9,10 +9,9 @@ Open Scope N_scope.
 Definition ttrie := trie tok N.
 Definition c20_run (ops : list (top tok N)) : list (tout N) := trun tok_eq tok_less empty ops.
 
-(* with a copy of the trie taken after the first k operations (generic instantiation copies it) *)
-Definition c20_run_copy (ops1 ops2 : list (top tok N)) : list (tout N) :=
-  let t := fold_left (fun t o => fst (tstep tok_eq tok_less t o)) ops1 empty in
-  trun tok_eq tok_less (copy tok_eq tok_less t) ops2.
+(* one operation at a time, for the driver (a fork is one operation: Fork inner) *)
+Definition c20_step (t : ttrie) (o : top tok N) : ttrie * list (tout N) := tstep tok_eq tok_less t o.
+Definition c20_empty : ttrie := empty.
 
 (* the lookup of the pinned tree (binary search only) loses the third of three print-alike keys *)
 Definition lost_map : list (tok * N) :=
@@ -35,3 +34,33 @@ Example c20_population :
            Declare [idt [122]; ph 1 3] 4; Lookup [idt [122]; ph 1 3]; Lookup [idt [122]; ph 1 1]; Lookup [idt [122]]]
   = [Declared; Declared; Declared; Rejected 3; Found (Some 3); Found (Some 1); Found None].
 Proof. vm_compute. reflexivity. Qed.
+
+(* non-vacuity of the fork theorems: the generic context Puts a colliding key (and a print-alike
+   one, a strict prefix and an extension) into the copy and sees its own values there; the
+   original still finds ITS value, still rejects the duplicate and does not see the fork's keys;
+   a nested fork sees the outer fork's Put, the outer fork does not see the nested one's *)
+Example c20_fork_population :
+  c20_run [Declare [idt [122]; ph 1 1] 1; Declare [idt [122]; ph 1 2] 2;
+           Fork [Put [idt [122]; ph 1 1] 7; Put [idt [122]; ph 1 3] 8; Put [idt [122]] 9; Put [idt [122]; ph 1 2; idt [97]] 10;
+                 Lookup [idt [122]; ph 1 1]; Lookup [idt [122]; ph 1 2];
+                 Fork [Lookup [idt [122]; ph 1 1]; Put [idt [122]; ph 1 2] 11; Lookup [idt [122]; ph 1 2]];
+                 Lookup [idt [122]; ph 1 2]; Declare [idt [122]; ph 1 1] 12];
+           Lookup [idt [122]; ph 1 1]; Declare [idt [122]; ph 1 1] 13; Lookup [idt [122]; ph 1 2];
+           Lookup [idt [122]; ph 1 3]; Lookup [idt [122]]; Lookup [idt [122]; ph 1 2; idt [97]];
+           Declare [idt [122]; ph 1 3] 14; Lookup [idt [122]; ph 1 3]]
+  = [Declared; Declared;
+     ForkBegin; PutDone; PutDone; PutDone; PutDone; Found (Some 7); Found (Some 2);
+       ForkBegin; Found (Some 7); PutDone; Found (Some 11); ForkEnd;
+       Found (Some 2); Rejected 7; ForkEnd;
+     Found (Some 1); Rejected 1; Found (Some 2); Found None; Found None; Found None; Declared; Found (Some 14)].
+Proof. vm_compute. reflexivity. Qed.
+
+(* the hypotheses of C20_stays_callable / C20_dup_rejected are satisfiable with a fork that Puts
+   the declared key in between *)
+Example c20_fork_hypotheses :
+  let ops1 := [Declare [idt [122]; ph 1 2] 2] in
+  let ops2 := [Fork [Put [idt [122]; ph 1 1] 7; Fork [Put [idt [122]; ph 1 1] 8]]; Lookup [idt [122]]; Fork [Put [idt [122]; ph 1 1] 9]] in
+  lookup tok_eq tok_less (state_after tok N tok_eq tok_less ops1) [idt [122]; ph 1 1] = None /\
+  forallb (fun o => negb (is_put o)) ops2 = true /\
+  lookup tok_eq tok_less (state_after tok N tok_eq tok_less (ops1 ++ Declare [idt [122]; ph 1 1] 1 :: ops2)) [idt [122]; ph 1 1] = Some 1.
+Proof. vm_compute. auto. Qed.
